@@ -43,6 +43,7 @@ def run(run):
         run.floor(r, n)
     project = run.project
     ev = sym.make_evaluator(project, IMG, [], inline_local=True)
+    ev.unroll = True          # loops over literal keyword tables are followed entry by entry
     ev.unroll = True            # a loop over a literal tuple of header keywords is evaluated keyword by keyword
     _r1(run, ev)
     _r2(run)
@@ -126,6 +127,13 @@ def _r1(run, ev):
         "CRPIX2": sym.sub(sym.add(hgt, num(1)), sy("CRPIX2")),
     }
     escaped = common.opaque_project_calls(project, r, [h])
+    # stores / deletions under a key that is not a constant (a loop over a keyword table that was not unrolled): which keyword
+    # gets which value is not known to the comparison below
+    loose = [e for e in r.events if e.kind == "store" and e.term[1][0][0] == "sub" and e.term[1][0][1] == h and e.term[1][0][2][0] != "const"]
+    if loose:
+        run.undecided("C16.R1", f, loose[0].node, "the header is written under a computed keyword (%s): the reflection is not followed key by key"
+                      % show(loose[0].term[1][0][2])[:60], kind="header-computed-key")
+        return
     for key, w in want.items():
         if key not in final:
             if escaped:
@@ -140,6 +148,13 @@ def _r1(run, ev):
             run.violated("C16.R1", f, None, "the reflected header never sets %s" % key, kind="missing-" + key)
             continue
         got = _renorm(_canon_header_terms(final[key][0], h))
+        raw_cd = [a for a in atoms_of(got) if a[0] == "sym" and a[1] in ("CD1_1", "CD1_2", "CD2_1", "CD2_2")]
+        if got != w and raw_cd:
+            # the value is built from a CD keyword as read back from the header; to_header() never writes CD keywords, so it was
+            # stored by code the evaluation did not connect to this read (a helper working on the header it was handed)
+            run.undecided("C16.R1", f, final[key][1].node, "%s is computed from header[%r] as read back; the store that set it is not connected to this read"
+                          % (key, raw_cd[0][1]), kind="header-readback")
+            return
         if got == w:
             run.holds("C16.R1", f, final[key][1].node, "%s = %s" % (key, show(w)))
         else:
